@@ -2031,14 +2031,13 @@ fn build_hvcc_box(hevc_config: &HevcConfig) -> Vec<u8> {
     // parallelismType (2 bits) with reserved (6 bits)
     payload.push(0xfc);
 
-    // chromaFormat (2 bits) with reserved (6 bits) - assume 4:2:0
-    payload.push(0xfd);
-
-    // bitDepthLumaMinus8 (3 bits) with reserved (5 bits) - assume 8-bit
-    payload.push(0xf8);
-
-    // bitDepthChromaMinus8 (3 bits) with reserved (5 bits) - assume 8-bit
-    payload.push(0xf8);
+    // chromaFormat (2 bits) with reserved (6 bits), bitDepthLumaMinus8 and
+    // bitDepthChromaMinus8 (3 bits each) with reserved (5 bits): the values of the SPS
+    let (chroma_format, luma_minus8, chroma_minus8) =
+        crate::codec::h265::hvcc_chroma_and_depths(&hevc_config.sps);
+    payload.push(0xfc | chroma_format);
+    payload.push(0xf8 | luma_minus8);
+    payload.push(0xf8 | chroma_minus8);
 
     // avgFrameRate (16 bits) - 0 = unspecified
     payload.extend_from_slice(&0u16.to_be_bytes());
